@@ -41,6 +41,8 @@ class Origin:
         self.prog = prog or body.prog
         self.max_depth = max_depth
         self._memo = {}
+        self._active = set()
+        self._loop_hits = 0
 
     # ------------------------------------------------------------ public
     def operand(self, op, at):
@@ -153,12 +155,23 @@ class Origin:
     def _resolve(self, local, path, at, depth):
         key = (local, path, at)
         if key in self._memo:
-            return self._memo[key]
+            v = self._memo[key]
+            if v[0] == "loop" and key in self._active:
+                self._loop_hits += 1
+            return v
         if depth > self.max_depth:
             return ("deep", local)
         self._memo[key] = ("loop", local)  # recursion guard (loop-carried value)
+        self._active.add(key)
+        hits0 = self._loop_hits
         res = self._resolve_uncached(local, path, at, depth)
-        self._memo[key] = res
+        self._active.discard(key)
+        if self._loop_hits != hits0 and self._active:
+            # the value was computed while an enclosing query was in progress and refers to it through a
+            # loop placeholder: it is context dependent, so it must not be cached
+            del self._memo[key]
+        else:
+            self._memo[key] = res
         return res
 
     def _resolve_uncached(self, local, path, at, depth):
